@@ -17,6 +17,16 @@ import determ_lib as L
 import engine_io
 from props import c01 as C1
 
+_builtin_float = float
+
+
+def float(x):  # noqa: A001 — overflow-safe: a huge exact rational becomes ±inf instead of raising OverflowError
+    try:
+        return _builtin_float(x)
+    except OverflowError:
+        return _builtin_float("inf") if x > 0 else _builtin_float("-inf")
+
+
 ID = "C03"
 LEAN_TARGETS = ["Strengths.Props.C03"]
 PROP_FILES = ["Strengths/Props/C03.lean"]
@@ -50,7 +60,8 @@ def flag_system(rng, system, phys):
 
 
 def make_job(ctx, rng, kind, size1=False, integer_state=False):
-    desc, phys, info = L.gen_system(rng, kind=kind, max_cells=1 if size1 else ctx.n(6, 16), chem_p=0.5, max_order=2 if integer_state else 4)
+    desc, phys, info = L.gen_system(rng, kind=kind, max_cells=1 if size1 else ctx.n(6, 16), chem_p=0.5, max_order=2 if integer_state else 4,
+                                    non_growing=integer_state)
     system = L.build_system(desc)
     chem, mode = flag_system(rng, system, phys)
     us = ("µm", "s", "molecule") if integer_state else L.rand_sys(rng)
@@ -210,6 +221,23 @@ def run_engine(system, option, script_units, dt_nat, nsteps, seed, with_draws):
     return script, out, draws
 
 
+def stable_tau(phys):
+    """a tau-leap time step (s) that moves at most ~1/8 of the molecules of any entry per step by diffusion
+    (the engine does not guard against negative populations: larger steps oscillate, explode and finally hang
+    inside std::poisson_distribution — input outside the property)"""
+    kmax = Fraction(0)
+    for s in range(phys["ns"]):
+        for i in range(phys["n"]):
+            out = Fraction(0)
+            for (j, S, d) in L.faces_of(phys, i):
+                out += L.dbar(phys["edge"][i], phys["edge"][j], phys["D"][s][phys["env"][i]], phys["D"][s][phys["env"][j]]) * S / (d * phys["vol"][i])
+            kmax = max(kmax, out)
+    dt = Fraction(1, 16)
+    while kmax * dt > Fraction(1, 8):
+        dt /= 2
+    return dt
+
+
 def check_trajectories(ctx, jobs, replay_steps):
     """oracle (i) on all engines + step correspondences"""
     for jb in jobs:
@@ -221,7 +249,7 @@ def check_trajectories(ctx, jobs, replay_steps):
                 continue
             nsteps = ctx.rng.choice([3, 8, 25]) if option != "gillespie" else ctx.rng.choice([20, 60])
             # stochastic engines: a time step large enough for events to happen in every run
-            dt_nat = jb["dt_nat"] if option == "euler" else ctx.rng.choice([Fraction(1, 4), Fraction(1, 8), Fraction(1, 16)])
+            dt_nat = jb["dt_nat"] if option == "euler" else stable_tau(phys)
             seed = ctx.rng.randrange(1, 2 ** 31 - 1)
             Us = jb["Uscript"] if option == "euler" else ("µm", "s", "molecule")
             case = dict(base_case(jb, "trajectory"), option=option, nsteps=nsteps, seed=seed, Uscript=list(Us), dt_nat=rstr(dt_nat))
@@ -255,6 +283,9 @@ def check_trajectories(ctx, jobs, replay_steps):
                 fq = L.si_factor(L.sys_of(traj.data.units.sys), L.D_QTY)
                 dt_si = Fraction(float(script.time_step.value)) * L.si_factor(L.sys_of(script.time_step.units.sys), L.D_TIME)
                 for kstep in range(min(len(ss) - 1, 3)):
+                    if not all(abs(v) < 1e150 for v in ss[kstep][1] + ss[kstep + 1][1]):
+                        ctx.count("euler_blowup_skipped")     # explicit Euler with a coarse step diverged (inf/nan): nothing to compare
+                        break
                     x0 = [Fraction(v) * fq for v in ss[kstep][1]]
                     x1 = [Fraction(v) * fq for v in ss[kstep + 1][1]]
                     orc = L.oracle_rate(phys, x0)
